@@ -12,7 +12,9 @@ COQ_TARGETS = ["C14_Extract.vo", "C14_Proofs.vo", "C14_Regress.vo"]
 EXTRACTED = "C14_model"
 DRIVER = "drv_C14.ml"
 HARNESS = "h_C14.cpp"
-VARIANTS = {"quick": ["assert"], "thorough": ["assert", "asan"]}
+# both tiers run every case under Eigen assertions AND under ASan+UBSan (raw-pointer writes such as
+# *(rand_vectors.data() + i) are invisible to Eigen's assertions)
+VARIANTS = {"quick": ["assert", "asan"], "thorough": ["assert", "asan"]}
 AXIOMS_ALLOWED = []
 TIMEOUT = 1500
 
@@ -69,12 +71,16 @@ def g_simstate(g, rng, tier):
     for D in (1, 2, 3):
         for T in (1, 2, 5):
             for calls in sorted({0, T - 1, T, T + 1, T + 3}):
-                g.add("simstate", "valid", dict(D=D, T=T, ir=2 * D, calls=calls))
+                g.add("simstate", "valid", dict(D=D, T=T, ir=2 * D), {"ops": ["b"] * calls})
+            # setProperty("reset") in the middle, at the end of the trajectory and after exhaustion
+            g.add("simstate", "valid", dict(D=D, T=T, ir=2 * D), {"ops": ["b"] * (T - 1) + ["r"] + ["b"] * (T + 1)})
+            g.add("simstate", "valid", dict(D=D, T=T, ir=2 * D), {"ops": ["b"] * (T + 2) + ["r", "r"] + ["b"] * T + ["r", "b"]})
     for _ in range(6 if tier == "quick" else 100):
         D = rng.randint(1, 3); T = rng.randint(1, 40)
-        g.add("simstate", "valid", dict(D=D, T=T, ir=2 * D, calls=T + rng.randint(0, 25)))
-    g.add("simstate", "outside", dict(D=2, T=3, ir=2, calls=1))      # initial state of the wrong size
-    g.add("simstate", "outside", dict(D=1, T=0, ir=2, calls=1))      # empty simulation: target_.col(0) of a 0-column matrix
+        ops = ["r" if rng.random() < 0.05 else "b" for _ in range(T + rng.randint(0, 25))]
+        g.add("simstate", "valid", dict(D=D, T=T, ir=2 * D), {"ops": ops})
+    g.add("simstate", "outside", dict(D=2, T=3, ir=2), {"ops": ["b"]})      # initial state of the wrong size
+    g.add("simstate", "outside", dict(D=1, T=0, ir=2), {"ops": ["b"]})      # empty simulation: rejected by the constructor
 
 
 def subsets(d, kmax=3):
@@ -144,10 +150,11 @@ def g_grid(g, rng, tier):
     for _ in range(3 if tier == "quick" else 40):
         nx, ny = rng.randint(1, 30), rng.randint(1, 30)
         g.add("grid", "valid", dict(nx=nx, ny=ny, n=nx * ny, **lay("", (4, 0, 0))))
-    # the initialiser writes x, 0, y, 0: states that are not 4-dimensional are outside its declared use
-    g.add("grid", "outside", dict(nx=2, ny=2, n=4, **lay("", (2, 0, 0))))
-    g.add("grid", "outside", dict(nx=2, ny=3, n=6, **lay("", (6, 0, 0))))
-    g.add("grid", "outside", dict(nx=1, ny=1, n=1, **lay("", (3, 2, 0))))
+    # the initialiser writes x, 0, y, 0 whatever the state size: the states of the 1-D and 3-D motion models
+    # (enumerated options of the API) have 2 and 6 rows
+    for nx, ny in ((1, 1), (2, 2), (2, 3)):
+        for l in ((2, 0, 0), (6, 0, 0), (3, 2, 0)):
+            g.add("grid", "valid", dict(nx=nx, ny=ny, n=nx * ny, **lay("", l)), tag="state-not-4d")
 
 
 def g_sigma(g, rng, tier):
@@ -258,7 +265,7 @@ def g_ukf(g, rng, tier):
                     for again in (0, 1):
                         # again: a second correction whose predictedMeasure fails, then getLikelihood()
                         g.add("ukfc", "valid", dict(additive=add, comps=comps, compsq=comps, r=r if add else 2, valid=1, ir=lcov(lm), again=again,
-                                                    **lay("p", lp), **lay("m", lm), **lay("q", lp)))
+                                                    online=(comps + again) % 2, **lay("p", lp), **lay("m", lm), **lay("q", lp)))
     # the evaluation fails on the first correction already (any component count, measurement sizes 1, 2, 3)
     for comps in (1, 2, 3, 4):
         for m in (1, 2, 3):
@@ -286,10 +293,16 @@ def g_ukf(g, rng, tier):
                 if tier == "quick" and (comps + msz) % 2 == 1 and comps > 1:
                     continue
                 g.add("sukf", "valid", dict(comps=comps, compsq=comps, msz=msz, sub=sub, r=msz, ir=msz, again=(comps + sub) % 2, **lay("p", lp), **lay("q", lp)))
+                if comps <= 2:      # one sub x sub covariance used for every sub-measurement
+                    g.add("sukf", "valid", dict(comps=comps, compsq=comps, msz=msz, sub=sub, r=sub, ir=msz, reduced=1, again=comps % 2, **lay("p", lp), **lay("q", lp)))
     for comps in (1, 2, 3):
         for lp in ((2, 1, 1), (0, 1, 1)):
             g.add("sukf", "valid", dict(comps=comps, compsq=comps, msz=2, sub=1, r=2, ir=2, **lay("p", lp), **lay("q", lp)), tag="quaternion-state")
     g.add("sukf", "outside", dict(comps=2, compsq=2, msz=4, sub=2, r=2, ir=4, **lay("p", LIN), **lay("q", LIN)))     # reduced R passed as full R
+    g.add("sukf", "outside", dict(comps=2, compsq=2, msz=4, sub=2, r=4, ir=4, reduced=1, **lay("p", LIN), **lay("q", LIN)))     # full R passed as reduced R
+    # measurement_sub_size = 0 is accepted by the noexcept constructor: meas_size % 0 (documented use: M = k J, J > 0)
+    g.add("sukf", "outside", dict(comps=1, compsq=1, msz=2, sub=0, r=2, ir=2, **lay("p", LIN), **lay("q", LIN)))
+    g.add("sukf", "outside", dict(comps=2, compsq=2, msz=0, sub=0, r=0, ir=0, **lay("p", EUL), **lay("q", EUL)))
     g.add("sukf", "outside", dict(comps=2, compsq=1, msz=2, sub=1, r=2, ir=2, **lay("p", LIN), **lay("q", LIN)))
     g.add("sukf", "outside", dict(comps=1, compsq=1, msz=2, sub=1, r=2, ir=1, **lay("p", LIN), **lay("q", LIN)))
     for _ in range(4 if tier == "quick" else 80):
@@ -339,6 +352,7 @@ def g_density(g, rng, tier):
             for s in (1, 5):
                 g.add("uvr", "valid", dict(r=r, c=c, k=r, ur=r, uc=s, vr=s, vc=r, bs=bs, rc=r))     # all diagonal blocks of R
                 g.add("uvr", "valid", dict(r=r, c=c, k=r, ur=r, uc=s, vr=s, vc=r, bs=bs, rc=bs))    # one block, repeated
+    g.add("uvr", "outside", dict(r=2, c=1, k=2, ur=2, uc=3, vr=3, vc=2, bs=0, rc=0))     # empty R: input_size / 0
     g.add("uvr", "outside", dict(r=4, c=1, k=4, ur=4, uc=3, vr=3, vc=4, bs=2, rc=3))
     g.add("uvr", "outside", dict(r=4, c=1, k=4, ur=4, uc=3, vr=2, vc=4, bs=2, rc=4))
     g.add("uvr", "outside", dict(r=4, c=2, k=3, ur=4, uc=3, vr=3, vc=4, bs=2, rc=4))
@@ -403,6 +417,7 @@ def signature(case, entry, site):
 
 def compare(case, impl, model):
     """The implementation ran to the end of the case (no assertion, no sanitizer report)."""
+    note_sites(model)
     d = []
     mv, me, ms = model_verdict(model)
     iv, ie = word1(impl, "verdict"), word1(impl, "entry")
@@ -431,12 +446,18 @@ def oracle(case, impl, model):
         return v
     k = case.kind
     if k in ("simstate", "linsensor"):
-        T, calls = int(case.meta["T"]), int(case.meta["calls"])
+        T = int(case.meta["T"])
+        ops = list(case.get("ops")) if k == "simstate" else ["b"] * int(case.meta["calls"])
         rets, i = [], 0
-        for _ in range(calls):
+        for t in ops:
+            if t != "b": continue
             if i >= len(o): break
             rets.append(o[i]); i += 3 if o[i] == 1 else 1
-        want = [1 if j < T else 0 for j in range(calls)]
+        want, served = [], 0
+        for t in ops:
+            if t == "r": served = 0
+            else:
+                want.append(1 if served < T else 0); served += 1 if served < T else 0
         if rets != want:
             v.append(("C14:%s:exhaustion-not-reported" % ("SimulatedStateModel::bufferData" if k == "simstate" else "SimulatedLinearSensor::freeze"),
                       "returns %s for a trajectory of %d steps" % (rets, T)))
@@ -489,6 +510,8 @@ def report_class(info):
         m = re.search(r"cond=\[(.*?)\] at", se)
         cond = m.group(1) if m else ""
         if "invalid matrix product" in cond: return "product"
+        if "empty matrix" in cond or "rows()>0" in cond.replace(" ", ""): return "empty"
+        if cond.replace(" ", "") in ("rows()==cols()",): return "not-square"
         if "startRow" in cond or "startCol" in cond or "(i>=0)" in cond.replace(" ", ""): return "block"
         if "dst.rows() == src.rows()" in cond or "aLhs.rows() == aRhs.rows()" in cond or "does not actually allow to resize" in cond: return "size-mismatch"
         if "index >= 0" in cond or "row >= 0" in cond: return "index"
@@ -496,17 +519,41 @@ def report_class(info):
         return "eigen-assert"
     m = re.search(r"AddressSanitizer: ([\w-]+)", se)
     if m: return m.group(1)
+    if "BFL_VERIF_SIGNAL" in se: return "crash"
     if "runtime error" in se:
         m = re.search(r"runtime error: ([a-z ]+)", se)
         return "ubsan-" + (m.group(1).strip().replace(" ", "-")[:40] if m else "report")
     return info.get("kind", "crash")
 
 
+# which reports of the implementation correspond to which kind of model precondition
+CLASS_OF_OP = {"mul": {"product"}, "same": {"size-mismatch", "not-square"}, "blk": {"block"}, "idx": {"block", "index", "empty"},
+               "comma": {"comma-initializer"}, "div": {"crash", "FPE", "ubsan-division-by-zero"}, "pop": {"crash", "SEGV", "heap-buffer-overflow", "eigen-assert"}}
+ALL_SITES, FAILED_SITES, CLASS_CHECKED = set(), set(), [0, 0]
+
+
+def note_sites(model):
+    if model is None:
+        return
+    ALL_SITES.update(model.get("sites") or [])
+    if word1(model, "verdict") == "fails":
+        FAILED_SITES.add("%s|%s" % (word1(model, "entry"), word1(model, "site")))
+
+
 def on_crash(case, info, model):
     """The implementation ended abnormally (assertion, sanitizer report, signal) inside some entry point."""
+    note_sites(model)
     mv, me, ms = model_verdict(model)
     ie = entry_of(info)
     rc = report_class(info)
+    if mv == "fails" and me == ie and case.kind != "lifetime":
+        # same entry point: the kind of failing precondition must correspond too
+        want = CLASS_OF_OP.get(word1(model, "opclass"), set())
+        CLASS_CHECKED[0] += 1
+        if rc not in want:
+            CLASS_CHECKED[1] += 1
+            return [("C14:correspondence-class:%s" % ie, "model: site %s fails as %s; implementation reports %s; %s"
+                     % (ms, word1(model, "opclass"), rc, info.get("stderr", "")[-400:].replace("\n", " | ")))]
     detail = "%s in %s (rc=%s): %s" % (info.get("kind"), ie, info.get("rc"), info.get("stderr", "")[-700:].replace("\n", " | "))
     if case.kind == "lifetime":
         return [("C14:%s:%s" % (ie, case.meta.get("tag") or rc), "lifetime / initialisation error outside the shape calculus: " + detail)]
@@ -539,17 +586,23 @@ def histogram(cases):
         cls[c.meta.get("cls")] = cls.get(c.meta.get("cls"), 0) + 1
         if c.meta.get("tag"):
             tags[c.meta["tag"]] = tags.get(c.meta["tag"], 0) + 1
-    return {"kind": h, "class": cls, "open_item_cases": tags}
+    never = sorted(ALL_SITES - FAILED_SITES)
+    return {"kind": h, "class": cls, "open_item_cases": tags,
+            "model_site_labels_executed": len(ALL_SITES), "model_site_labels_failing_in_some_case": len(FAILED_SITES & ALL_SITES),
+            "site_labels_never_failing": never,
+            "failing_cases_with_class_compared": CLASS_CHECKED[0], "class_mismatches": CLASS_CHECKED[1]}
 
 
 REQUIRED_THEOREMS = ["C14_WhiteNoiseAcceleration_safe", "C14_SimulatedStateModel_safe", "C14_bufferData_exhaustion_reported",
-                     "C14_SimulatedLinearSensor_safe", "C14_HistoryBuffer_safe", "C14_InitSurveillanceAreaGrid_safe", "C14_sigma_point_safe", "C14_augmentWithNoise_safe",
-                     "C14_unscented_transform_safe", "C14_unscented_transform_additive_measurement_failed_safe", "C14_KFPrediction_safe",
-                     "C14_KFCorrection_safe", "C14_UKFPrediction_additive_safe", "C14_UKFPrediction_generic_safe", "C14_UKFCorrection_safe",
-                     "C14_UKFCorrection_quaternion_measurement_safe",
-                     "C14_UKFCorrection_quaternion_state_refuted", "C14_SUKFCorrection_safe", "C14_SUKFCorrection_quaternion_state_refuted",
+                     "C14_SimulatedLinearSensor_safe", "C14_HistoryBuffer_safe", "C14_InitSurveillanceAreaGrid_safe",
+                     "C14_InitSurveillanceAreaGrid_state_2d_refuted", "C14_InitSurveillanceAreaGrid_state_6d_refuted", "C14_sigma_point_safe",
+                     "C14_augmentWithNoise_safe", "C14_unscented_transform_safe", "C14_unscented_transform_additive_measurement_failed_safe",
+                     "C14_KFPrediction_safe", "C14_KFCorrection_safe", "C14_UKFPrediction_additive_safe", "C14_UKFPrediction_generic_safe",
+                     "C14_UKFCorrection_safe", "C14_UKFCorrection_quaternion_measurement_safe", "C14_UKFCorrection_quaternion_state_refuted",
+                     "C14_SUKFCorrection_safe", "C14_SUKFCorrection_quaternion_state_refuted", "C14_SUKFCorrection_zero_sub_size_refuted",
                      "C14_Resampling_safe", "C14_ResamplingWithPrior_safe", "C14_ResamplingWithPrior_quaternion_safe",
-                     "C14_gaussian_density_safe", "C14_gaussian_density_UVR_safe", "C14_EstimatesExtraction_safe"]
+                     "C14_gaussian_density_safe", "C14_gaussian_density_UVR_safe", "C14_gaussian_density_UVR_zero_block_size_refuted",
+                     "C14_EstimatesExtraction_safe"]
 RULE = ("exhaustive over the enumerated options: 3 Dim values x every measured-component subset of size <= 3 x component counts 1..4 x the "
         "layouts (linear, linear+Euler, linear+quaternion, quaternion only; with and without noise augmentation) x the five unscented-transform "
         "overloads x small num / window / call counts (call sequences longer than the trajectory, the window and the 30-element cap), plus seeded "
